@@ -39,6 +39,7 @@ def run(tier):
     lk.validate(c, out, FLAGS, "random")
     out, _ = lk.drive(c, "stress", "stress-inmem", n=10 if c.quick() else 100)
     lk.validate(c, out, FLAGS, "stress-inmem", chunks=1)
+    lease_stale(c)
     c.assumptions += ["'after Shutdown' applies to calls invoked after Shutdown returned; calls already parked in the storage wait are not constrained",
                       "a stuck verdict needs 4 s without any progress while nothing is held, pending or expirable",
                       "a record may remain after a lost request/reply (it expires with its lease); without faults none may remain"]
@@ -47,3 +48,19 @@ def run(tier):
                          "pending calls granted, unowned records expire), requires every blocked caller to finish, reads the record from the "
                          "backing store and probes every locker with TryLock/Unlock; LockTrace.tla enforces return values, no acquisition after "
                          "cancellation/Shutdown, no residue, no stuck caller; TLC also checks Progress (blocked ~> holding or left) under fairness")
+
+
+def lease_stale(c):
+    """No residue under REAL leases: a renewal of a finished tenure that is still in flight (or fails) while the same Locker is
+    used again must leave nothing behind - the re-acquisition succeeds, and in the end the lock is free (timed events validated
+    by LeaseTrace.tla; stalled runs are repeated, never judged)."""
+    import json
+    import c05
+    out = c.path("trace", "lease-stale.ndjson")
+    c.run_vh(["drive", "lease", "-seed", c.seed, "-out", out, "-x", "mode=stale", "-x", "tier=" + c.tier], timeout=900)
+    c.extra["lease_stale_runs"] = json.load(open(out + ".stats"))
+    before = len(c.violations)
+    c05.validate(c, out, "stale")
+    for v in c.violations[before:]:
+        v["sig"] = "lock: a renewal of a finished tenure left something behind (re-acquisition through the same Locker failed, the lock " \
+                   "is not free in the end, or the next holder's record was disturbed) [real-time]"
